@@ -552,6 +552,27 @@ impl CompositionGraph {
         self.imports
             .retain(|_, n| self.graph[*n].package != Some(package));
 
+        // Arguments satisfied by nodes of the package become unsatisfied again
+        for (target, index) in self
+            .graph
+            .edge_indices()
+            .filter_map(|e| {
+                let (source, target) = self.graph.edge_endpoints(e)?;
+                match self.graph[e] {
+                    Edge::Argument(i)
+                        if self.graph[source].package == Some(package)
+                            && self.graph[target].package != Some(package) =>
+                    {
+                        Some((target, i))
+                    }
+                    _ => None,
+                }
+            })
+            .collect::<Vec<_>>()
+        {
+            self.graph[target].remove_satisfied_arg(index);
+        }
+
         // Remove all nodes associated with the package
         self.graph
             .retain_nodes(|g, i| g[i].package != Some(package));
@@ -1016,6 +1037,19 @@ impl CompositionGraph {
             if self.graph.contains_node(node.0) {
                 self.remove_node(node);
             }
+        }
+
+        // Arguments satisfied by this node become unsatisfied again
+        for (target, index) in self
+            .graph
+            .edges_directed(node.0, Direction::Outgoing)
+            .filter_map(|e| match e.weight() {
+                Edge::Argument(i) => Some((e.target(), *i)),
+                Edge::Alias(_) | Edge::Dependency => None,
+            })
+            .collect::<Vec<_>>()
+        {
+            self.graph[target].remove_satisfied_arg(index);
         }
 
         // Remove the node from the graph
